@@ -48,11 +48,12 @@ def dumpFields (fs : List Proc.ParseProj.Field) : String :=
 
 /-- one field of the implementation's sobs line judged against the property:
 echo it when acceptable, otherwise print what is demanded -/
-def judge (n : Nat) (must : Option String) (v : String) : String :=
+def judge (n : Nat) (must : Option String) (v : String) (mustAccept : Bool := false) : String :=
   if v == "ok" then
     match must with
     | some cls => s!"REJECT({cls})"
     | none => v
+  else if mustAccept then "ACCEPT(simple)"
   else
     match (v.splitOn ":") with
     | ["err", off] =>
@@ -100,12 +101,29 @@ def handleSobs (c : Line) (l : Line) : IO Unit := do
     let text := (c.bytes? "text").getD []
     let n := text.length
     let f := judge n (Spec.Expr.mustRejectFilter text) (l.getD "f")
-    let p := judge n (Spec.Expr.mustRejectProj text) (l.getD "p")
+    let p := judge n (Spec.Expr.mustRejectProj text) (l.getD "p") (Spec.Expr.mustAcceptProj text)
     IO.println s!"spec {l.id} n={n} f={f} p={p}"
   else if kind == "quote" then
     let s := (c.bytes? "s").getD []
     let (key, pk) := if Spec.Expr.usableKey s then ("ok:100", s!"ok:{s.toHex}:76") else ("skip", "skip")
     IO.println s!"spec {l.id} val=ok:10 full=ok:10 key={key} pk={pk} fx=ok:10"
+  else if kind == "denote" then
+    -- terms=<n|-><L|Q|R><hexword>,…  probes=<hexlist>  rm=<bits per probe>,… (regexp oracle per term)
+    let conn := if c.getD "conn" == "and" then 1 else 0
+    let probes := (c.hexList? "probes").getD []
+    let tstrs := (c.getD "terms").splitOn ","
+    let rms := (c.getD "rm").splitOn ","
+    let terms : List (Spec.Expr.DTerm × List Bool) := (tstrs.zip rms).filterMap fun (ts, rm) =>
+      match ts.toList with
+      | ng :: fm :: hexw =>
+        (Bytes.ofHexChars hexw).map fun w =>
+          (({ neg := ng == 'n', form := UInt8.ofNat fm.toNat, word := w } : Spec.Expr.DTerm), rm.toList.map (· == '1'))
+      | _ => none
+    let bits := (List.range probes.length).map fun i =>
+      let probe := probes.getD i []
+      let ts := terms.map fun (t, rm) => (t, rm.getD i false)
+      if Spec.Expr.denote conn ts probe then '1' else '0'
+    IO.println s!"spec {l.id} den=ok:{String.ofList bits}"
   else if kind == "bare" then
     let w := (c.bytes? "w").getD []
     let hasSpace := w.any Spec.Expr.asciiSpace || (c.getD "sp" "-") != "-"
